@@ -30,6 +30,7 @@ import (
 	"strings"
 	"sync"
 	"sync/atomic"
+	"syscall"
 	"testing"
 	"time"
 
@@ -1456,4 +1457,142 @@ func TestVerifSpamLoop(t *testing.T) {
 		fail(fmt.Sprintf("unsolicited announcements for B continue after its last holder was withdrawn: %v -> %v", b2, b3))
 	}
 	out.Case(0, "spam-loop", "tt", map[string]any{"steps": trace, "A": count(A), "B": count(B), "C": count(C)})
+}
+
+// ---------------------------------------------------------------- multicast joins that fail (F30)
+
+// TestVerifJoinFailure: REAL responders (real updateInterfaces, raw ICMPv6 sockets) on a veth pair
+// in a PRIVATE network namespace (unshare; nothing of the machine is touched), where a join can be
+// made to fail: the namespace's socket option memory limit (net.core.optmem_max) is set to 1 around
+// a SetBalancer, so that IPV6_JOIN_GROUP returns ENOBUFS.  Black box: the kernel's membership per
+// (interface, group) after every operation.  Statement (C13_j_groups): membership is 0 or 1, 0 when
+// no announced address maps to the group, exactly "announced" when no join has failed so far — and
+// it recovers: after a failed join, a withdrawal and a new announcement the group is joined.  The
+// first history is the F30 witness (corpus/C13/F30-join-failure-desync.json).  Shipped to the model
+// (Model/AnnouncerJoin.v).  Skipped (counted) without the privilege to unshare.
+func TestVerifJoinFailure(t *testing.T) {
+	out := vOpen()
+	defer out.Close()
+	r := vRand()
+	runtime.LockOSThread() // stays locked: this thread lives in the private namespace and ends with the test
+	if err := syscall.Unshare(syscall.CLONE_NEWNET); err != nil {
+		out.Stat("joinfailure_skipped:cannot-unshare", 1)
+		return
+	}
+	ifA, ifB := "vja", "vjb"
+	if vaIP("link", "set", "lo", "up") != nil || vaIP("link", "add", ifA, "type", "veth", "peer", "name", ifB) != nil {
+		out.Stat("joinfailure_skipped:cannot-create-veth", 1)
+		return
+	}
+	exec.Command("sysctl", "-qw", "net.ipv6.conf."+ifA+".accept_dad=0", "net.ipv6.conf."+ifB+".accept_dad=0").Run()
+	vaIP("link", "set", ifA, "up")
+	vaIP("link", "set", ifB, "up")
+	for end := time.Now().Add(4 * time.Second); time.Now().Before(end) && !(vaHasLinkLocal(ifA) && vaHasLinkLocal(ifB)); {
+		time.Sleep(50 * time.Millisecond)
+	}
+	const optmem = "/proc/sys/net/core/optmem_max"
+	orig, err := os.ReadFile(optmem)
+	if err != nil || os.WriteFile(optmem, orig, 0o644) != nil {
+		out.Stat("joinfailure_skipped:no-optmem-sysctl", 1)
+		return
+	}
+	ifID := map[string]int{ifA: 1, ifB: 2}
+	histories := vN(3)
+	for h := 0; h < histories; h++ {
+		a := VerifNewQueue(log.NewNopLogger(), nil, 1<<12)
+		a.VerifUpdateInterfaces()
+		_, ndps := a.VerifResponders()
+		if len(ndps) != 2 {
+			out.Stat("joinfailure_skipped:no-ndp-responders", 1)
+			a.VerifClose()
+			return
+		}
+		w := vaSpec{}
+		allOK := true
+		var steps, trace []string
+		failed := false
+		fail := func(sig, what string) {
+			if !failed {
+				failed = true
+				out.Fail(sig, what, map[string]any{"steps": trace, "how": "./check C13 (TestVerifJoinFailure: private network namespace, optmem_max = 1 makes IPV6_JOIN_GROUP fail; needs root)"})
+			}
+		}
+		observe := func(ev, what string) {
+			trace = append(trace, what)
+			var obs []string
+			seen := map[uint64]bool{}
+			for _, ip := range vaV6 {
+				g := vaGroupN(ip)
+				if seen[g] {
+					continue
+				}
+				seen[g] = true
+				announced := false
+				for _, ip2 := range vaV6 {
+					if vaGroupN(ip2) == g && w.holders(ip2) > 0 {
+						announced = true
+					}
+				}
+				for _, intf := range []string{ifA, ifB} {
+					got, ok := vaKernelMembers(intf, vaGroupKey(ip))
+					if !ok {
+						continue
+					}
+					out.Stat("joinfailure_membership_checked", 1)
+					switch {
+					case got < 0 || got > 1:
+						fail("l2-join-membership", fmt.Sprintf("after %q: %d sockets joined to %s on %s", what, got, vaGroupKey(ip), intf))
+					case !announced && got != 0:
+						fail("l2-join-leak", fmt.Sprintf("after %q: still joined to %s on %s although no announced address maps to it", what, vaGroupKey(ip), intf))
+					case allOK && announced && got != 1:
+						fail("l2-join-missing", fmt.Sprintf("after %q: not joined to %s on %s although an address of the group is announced and no join has failed", what, vaGroupKey(ip), intf))
+					}
+					obs = append(obs, cCtor("OMem", cNi(ifID[intf]), cN(g), cZ(int64(got))))
+				}
+			}
+			steps = append(steps, cPair(ev, cList(obs)))
+		}
+		set := func(svc int, ip string, ok bool) {
+			adv := vaAdv{IP: ip, All: true}
+			w.apply(vaOp{Kind: "set", Svc: svc, Adv: adv})
+			if !ok {
+				os.WriteFile(optmem, []byte("1"), 0o644)
+				allOK = false
+				out.Stat("joinfailure_failing_announces", 1)
+			}
+			a.SetBalancer(vaSvcs[svc], adv.real())
+			os.WriteFile(optmem, orig, 0o644)
+			a.VerifDrainSpam()
+			observe(cCtor("JSet", cNi(svc), cCtor("mk_adv", vaCoqIP(ip), "true", "[]"), fmt.Sprintf("(fun _ => %v)", ok)),
+				fmt.Sprintf("SetBalancer %s %s (joins %s)", vaSvcs[svc], ip, map[bool]string{true: "work", false: "fail"}[ok]))
+		}
+		del := func(svc int) {
+			w.apply(vaOp{Kind: "del", Svc: svc})
+			a.DeleteBalancer(vaSvcs[svc])
+			observe(cCtor("JDel", cNi(svc)), "DeleteBalancer "+vaSvcs[svc])
+		}
+		if h == 0 { // the F30 witness: failed join, withdraw, announce again -> must be joined
+			set(0, vaV6[0], false)
+			del(0)
+			set(0, vaV6[0], true)
+			for _, intf := range []string{ifA, ifB} {
+				if got, ok := vaKernelMembers(intf, vaGroupKey(vaV6[0])); ok && got != 1 {
+					fail("l2-join-not-retried", fmt.Sprintf("after a failed join, a withdrawal and a new announcement of %s the group %s is not joined on %s (counter stuck): F30", vaV6[0], vaGroupKey(vaV6[0]), intf))
+				} else if ok {
+					out.Stat("joinfailure_recovered", 1)
+				}
+			}
+			del(0)
+			allOK = true // everything withdrawn: the counters are back to 0, later joins decide again
+		}
+		for k := 0; k < 10; k++ {
+			if r.Intn(3) == 0 {
+				del(r.Intn(3))
+			} else {
+				set(r.Intn(3), vaV6[r.Intn(len(vaV6))], r.Intn(3) != 0)
+			}
+		}
+		a.VerifClose()
+		out.Case(h, "join-failure", cCtor("mk_jcase", cNi(h), cListN([]int{1, 2}), cList(steps)), map[string]any{"steps": trace})
+	}
 }
